@@ -117,6 +117,9 @@ impl Property for C07 {
             ops.push(g.gen_extract().to_string());
         }
         case.ops = ops;
+        if cfg_rng.chance(1, 2) {
+            draw_knobs(&mut case, &mut cfg_rng);
+        }
         if index % 12 == 11 {
             draw_threaded(&mut case, &mut cfg_rng);
         }
